@@ -65,6 +65,9 @@ def run(ctx):
         # two result attributes in the same location (two cookies, two headers), and in thorough random pairs
         allv = hc.gen_vectors(ctx, "res", 1, 1, label="Gen res 1x1 (for pairs)")
         pairs = hc.combine_cases(ctx, allv, 80 if quick else 1500, ctx.seed, fam="res", mode="sameloc")
+        # two tagged responses (each on a result attribute of its own, either declaration order) x results matching none / one /
+        # both tags: the FIRST matching response in design order answers
+        pairs += hc.combine_cases(ctx, allv, 16 if quick else 400, ctx.seed, fam="res", mode="twotags")
         if not quick:
             pairs += hc.combine_cases(ctx, allv, 3000, ctx.seed + 1, fam="res")
         return hc.run_family(ctx, "res", pairs, name="gen-res-pairs")
